@@ -52,8 +52,8 @@ FLOORS = {
               "generic_gen_results_checked": 1400, "generic_gen_results_with_omitted_default": 330,
               "starcall_judged": 1500, "starcall_long_judged": 330, "starcall_long_expect_error": 240},
     "thorough": {"distinct_nontrivial": 60000, "calls_judged": 80000, "results_checked": 25000,
-                 "generic_gen_results_checked": 5600, "generic_gen_results_with_omitted_default": 1300,
-                 "starcall_judged": 6000, "starcall_long_judged": 1300, "starcall_long_expect_error": 960},
+                 "generic_gen_results_checked": 19000, "generic_gen_results_with_omitted_default": 4900,
+                 "starcall_judged": 26000, "starcall_long_judged": 5800, "starcall_long_expect_error": 4300},
 }
 CODES = {"incompatible_argument", "incompatible_call"}
 BATCH = 150
